@@ -27,7 +27,8 @@ fi
 for p in "$@"; do
   echo "=== $p (quick) against the mutated tree"
   (cd $vc && IBICUS_REPO=$wt timeout 1800 ./check $p --tier quick > $vc/out_$p.txt 2>&1; echo $? > $vc/rc_$p.txt)
-  grep -v "Warning\|post_init" $vc/out_$p.txt | tail -8
+  grep -A1 "^VIOLATION\|^KNOWN-FINDING" $vc/out_$p.txt | cut -c1-400 | head -16
+  grep -v "Warning\|post_init" $vc/out_$p.txt | grep "tier=" | tail -1
   echo "check exit $(cat $vc/rc_$p.txt)"
   ls $vc/replays 2>/dev/null | head -3
 done
